@@ -12,7 +12,7 @@
    equivalence on graphs with cycles (where it is refuted, witnesses 2); there the verdict under each explicit
    start order is compared with well-foundedness computed on the model (run/lib/graphspec.well_founded). *)
 From Verif Require Import Base.Str Base.Outcome Model.Ast Model.Printer Model.WGraph Model.WWeights
-  Spec.GraphWeights Proofs.WeightsProofs Proofs.Witnesses Proofs.GraphPrims Proofs.DagWeights Proofs.DagCheck Proofs.BuilderFresh Proofs.DagModel.
+  Spec.GraphWeights Proofs.WeightsProofs Proofs.Witnesses Proofs.GraphPrims Proofs.DagWeights Proofs.DagCheck Proofs.BuilderFresh Proofs.DagModel Spec.GraphShape Proofs.BuilderValid.
 
 (* 1. a relation defined as itself (`define a: a`): the computed self edge is a model cycle, for every graph,
       path and fuel — it is never resolved as a tuple cycle (repair F9) *)
@@ -66,3 +66,13 @@ Theorem C05_built_graph_accepted_iff : forall m g, wbuild m = Ok g -> acyclic_ch
   forall o, fuel_check g = true ->
   (is_ok (build_weighted o m) = true <-> forallb (spec_accepts g) (order_used o g) = true).
 Proof. exact built_accepted_iff. Qed.
+
+(* 7. THE BUILDER'S OWN VERDICT (before any weight is assigned): it rejects exactly the models in which some
+      tuple-to-userset names a tupleset without metadata entry, without type restrictions, or with a parent type
+      that does not define the computed relation — wherever the tuple-to-userset stands in the rewrite, whatever
+      else the model contains — and then always with an invalid-model error, never a cycle error *)
+Theorem C05_builder_rejects_exactly_dangling_tuple_to_usersets : forall m, is_ok (wbuild m) = model_valid m.
+Proof. exact wbuild_ok_iff_valid. Qed.
+
+Theorem C05_builder_errors_are_invalid_model : forall m e, wbuild m = Err e -> exists why, e = WInvalidModel why.
+Proof. exact wbuild_errors_are_invalid_model. Qed.
